@@ -99,7 +99,8 @@ def header_maps(prog):
                     if v[0] == "const" and v[2] not in (0, None):
                         mask = v[2]
                         fs = [A.last_field(fc[1]) for fc in c.facts_on_all_paths(d[0]) if fc[0] == "truth" and fc[2] is True and (A.path_str(fc[1]) or "").startswith("param1.")]
-                        field = fs[-1] if fs else None
+                        # the bit is set when that one flag is set - under no further condition on the header
+                        field = fs[0] if len(fs) == 1 else ("?" + "&".join(str(x) for x in fs) if fs else None)
                     elif v[0] == "const" and v[2] == 0:
                         pass
                 wmap[field] = (octet, mask, None)
